@@ -183,14 +183,34 @@ theorem shapeOf_setOwn (n : Node) (o : Own) (h : o.shape = n.own.shape) :
     shapeOf (n.setOwn o) = shapeOf n := by
   cases n <;> simp [Node.setOwn, shapeOf, Node.own] at * <;> exact h
 
-@[simp] theorem shapeOf_withIns (n : Node) (i : List Val) : shapeOf (n.withIns i) = shapeOf n := by
+mutual
+theorem shapeOf_setIns : ∀ (n : Node) (i : List Val), shapeOf (setIns i n) = shapeOf n
+  | .fn o fid, i => rfl
+  | .comp o k l ks, i => by
+    simp only [setIns, shapeOf, shapeOfKids_pushKids ks i l 0]
+    rfl
+theorem shapeOfKids_pushKids : ∀ (ks : List Node) (pins : List Val) (l : List (Option Ref)) (p : Nat),
+    shapeOfKids (pushKids pins l p ks) = shapeOfKids ks
+  | [], _, _, _ => rfl
+  | n :: ns, pins, l, p => by
+    simp only [pushKids, shapeOfKids, shapeOf_setIns n, shapeOfKids_pushKids ns]
+end
+attribute [simp] shapeOf_setIns shapeOfKids_pushKids
+
+@[simp] theorem setIns_gen (n : Node) (i : List Val) : (setIns i n).own.gen = n.own.gen := by
   cases n <;> rfl
 
-@[simp] theorem withIns_gen (n : Node) (i : List Val) : (n.withIns i).own.gen = n.own.gen := by
-  cases n <;> rfl
-
-@[simp] theorem allOk_withIns (n : Node) (i : List Val) : allOk (n.withIns i) = allOk n := by
-  cases n <;> rfl
+mutual
+theorem allOk_setIns : ∀ (n : Node) (i : List Val), allOk (setIns i n) = allOk n
+  | .fn o fid, i => rfl
+  | .comp o k l ks, i => by simp only [setIns, allOk, allOkKids_pushKids ks i l 0]
+theorem allOkKids_pushKids : ∀ (ks : List Node) (pins : List Val) (l : List (Option Ref)) (p : Nat),
+    allOkKids (pushKids pins l p ks) = allOkKids ks
+  | [], _, _, _ => rfl
+  | n :: ns, pins, l, p => by
+    simp only [pushKids, allOkKids, allOk_setIns n, allOkKids_pushKids ns]
+end
+attribute [simp] allOk_setIns allOkKids_pushKids
 
 theorem shapeOfKids_append (a b : List Node) : shapeOfKids (a ++ b) = shapeOfKids a ++ shapeOfKids b := by
   induction a with
@@ -240,12 +260,12 @@ theorem shapeOfKids_runKids (cfg : Cfg) (fails : Nat → Bool) (hIO : cfg.keepIO
     split
     · rename_i i hp
       obtain ⟨h1, h2⟩ := shapeOfKids_runKids cfg fails hIO hKE hDD rest mode pins links
-        (st.push n (n.withIns i) false false)
+        (st.push n (setIns i n) false false)
       rw [h1, h2, KS.push_bumps_same _ _ _ _ _ (by simp)]
       simp [shapeOfKids_append, shapeOfKids]
     · rename_i i hp
       obtain ⟨h1, h2⟩ := shapeOfKids_runKids cfg fails hIO hKE hDD rest mode pins links
-        (st.push n (n.withIns i) false true)
+        (st.push n (setIns i n) false true)
       rw [h1, h2, KS.push_bumps_same _ _ _ _ _ (by simp)]
       simp [shapeOfKids_append, shapeOfKids]
     · rename_i i hp
@@ -260,8 +280,17 @@ end
 
 /-! ### nothing is left running -/
 
-@[simp] theorem idle_withIns (n : Node) (i : List Val) : idle (n.withIns i) = idle n := by
-  cases n <;> rfl
+mutual
+theorem idle_setIns : ∀ (n : Node) (i : List Val), idle (setIns i n) = idle n
+  | .fn o fid, i => rfl
+  | .comp o k l ks, i => by simp only [setIns, idle, idleKids_pushKids ks i l 0]
+theorem idleKids_pushKids : ∀ (ks : List Node) (pins : List Val) (l : List (Option Ref)) (p : Nat),
+    idleKids (pushKids pins l p ks) = idleKids ks
+  | [], _, _, _ => rfl
+  | n :: ns, pins, l, p => by
+    simp only [pushKids, idleKids, idle_setIns n, idleKids_pushKids ns]
+end
+attribute [simp] idle_setIns idleKids_pushKids
 
 theorem idleKids_append (a b : List Node) : idleKids (a ++ b) = (idleKids a && idleKids b) := by
   induction a with
